@@ -137,7 +137,16 @@ func vC15Routes(t *testing.T, out *vEmitter) {
 							}
 							refPath, ok := vRefPath(uri)
 							want := false
-							if ok {
+							oraclePath := refPath
+							if !ok {
+								// not a well-formed request URI: the path is still what precedes the query/fragment
+								oraclePath = uri
+								if i := strings.IndexAny(uri, "?#"); i >= 0 {
+									oraclePath = uri[:i]
+								}
+							}
+							{
+								refPath := oraclePath
 								for _, r := range ref {
 									if (r.method == "" || r.method == req.Method) && (r.re.MatchString(refPath) != r.negate) {
 										want = true
@@ -165,7 +174,7 @@ func vC15Routes(t *testing.T, out *vEmitter) {
 							if got {
 								out.Stat("route_allowed", 1)
 							}
-							if ok && got != want {
+							if got != want {
 								out.Violation("bypass/route-decision", "skip-auth decision differs from (method, path) matching of the configured rules",
 									map[string]interface{}{"rules": fmt.Sprint(rs), "method": m, "target": target, "fwd": fwd, "reverse_proxy": rp, "got": got, "want": want})
 							}
